@@ -89,4 +89,174 @@ theorem daemonConnectionFlags_not_url {parameters : List (Str × Str)} {flags : 
         simp only [List.mem_cons, List.mem_nil_iff, or_false] at ha
         rcases ha with ha | ha <;> rw [ha] <;> rfl
 
+/-! ## Reading vectors that start with daemon connection flags -/
+
+/-- A block of arguments that a getopt/pflag reading takes as a unit: whatever follows, its
+elements are read in the roles they were built for and the reading of the rest is unaffected. -/
+def ReadAsIntended (block : List Arg) : Prop :=
+  ∀ rest : List Str,
+    interpretAux takesValue false (block.map (·.text) ++ rest) =
+      block.map (·.role) ++ interpretAux takesValue false rest
+
+theorem readAsIntended_nil : ReadAsIntended [] := by
+  intro rest; simp
+
+theorem readAsIntended_append {a b : List Arg} (ha : ReadAsIntended a) (hb : ReadAsIntended b) :
+    ReadAsIntended (a ++ b) := by
+  intro rest
+  simp only [List.map_append, List.append_assoc]
+  rw [ha, hb]
+
+theorem readAsIntended_flatMap {α : Type} (l : List α) (f : α → List Arg) (h : ∀ x ∈ l, ReadAsIntended (f x)) :
+    ReadAsIntended (l.flatMap f) := by
+  induction l with
+  | nil => exact readAsIntended_nil
+  | cons x xs ih =>
+    rw [List.flatMap_cons]
+    exact readAsIntended_append (h x (by simp)) (ih (fun y hy => h y (by simp [hy])))
+
+/-- A switch (`--tls`, `--tlsverify`, `--interactive`): an option that takes no value. -/
+theorem readAsIntended_switch (name : Str) (h : takesValue ('-' :: '-' :: name) = false) :
+    ReadAsIntended [optS ('-' :: '-' :: name)] := by
+  intro rest
+  simp [optS, interpretAux, startsWithDash_dash, h]
+
+/-- An option with its separate value (`--host V`, `--user V`, …): the value is consumed
+whatever it looks like. -/
+theorem readAsIntended_valued (name : Str) (v : Arg) (hv : v.role = .value)
+    (h : takesValue ('-' :: '-' :: name) = true) :
+    ReadAsIntended [optS ('-' :: '-' :: name), v] := by
+  intro rest
+  simp [optS, interpretAux, startsWithDash_dash, h, hv]
+
+/-- An operand that does not start with '-'. -/
+theorem readAsIntended_operand (a : Arg) (hr : a.role = .operand) (h : startsWithDash a.text = false) :
+    ReadAsIntended [a] := by
+  intro rest
+  simp [interpretAux, h, hr]
+
+/-- **The daemon connection flags are read as intended**: the flags Mutagen computes from the URL
+parameters (`--config V`, `--host V`, `--context V`, `--tls`, `--tlscacert V`, `--tlscert V`,
+`--tlskey V`, `--tlsverify`) are options with their values, whatever the parameter values are. -/
+theorem daemonConnectionFlags_readAsIntended {parameters : List (Str × Str)} {flags : List Arg}
+    (h : daemonConnectionFlags parameters = .ok flags) : ReadAsIntended flags := by
+  unfold daemonConnectionFlags at h
+  cases hf : parameters.findSome? checkParameter with
+  | some e => simp [hf] at h
+  | none =>
+    simp only [hf] at h
+    injection h with h
+    subst h
+    apply readAsIntended_flatMap
+    intro name hname
+    cases hl : lookup name parameters with
+    | none => exact readAsIntended_nil
+    | some v =>
+      simp only
+      have hcases : name = "config".toList ∨ name = "host".toList ∨ name = "context".toList ∨ name = "tls".toList ∨
+          name = "tlscacert".toList ∨ name = "tlscert".toList ∨ name = "tlskey".toList ∨ name = "tlsverify".toList := by
+        simpa [flagOrder] using hname
+      rcases hcases with rfl | rfl | rfl | rfl | rfl | rfl | rfl | rfl
+      · rw [if_neg (by decide)]; exact readAsIntended_valued _ _ rfl (by decide)
+      · rw [if_neg (by decide)]; exact readAsIntended_valued _ _ rfl (by decide)
+      · rw [if_neg (by decide)]; exact readAsIntended_valued _ _ rfl (by decide)
+      · rw [if_pos (by decide)]; exact readAsIntended_switch _ (by decide)
+      · rw [if_neg (by decide)]; exact readAsIntended_valued _ _ rfl (by decide)
+      · rw [if_neg (by decide)]; exact readAsIntended_valued _ _ rfl (by decide)
+      · rw [if_neg (by decide)]; exact readAsIntended_valued _ _ rfl (by decide)
+      · rw [if_pos (by decide)]; exact readAsIntended_switch _ (by decide)
+
+/-- A list of operands none of which starts with '-'. -/
+theorem readAsIntended_operands (ws : List Str) (h : ∀ w ∈ ws, startsWithDash w = false) :
+    ReadAsIntended (ws.map operand) := by
+  induction ws with
+  | nil => exact readAsIntended_nil
+  | cons w ws ih =>
+    have : (w :: ws).map operand = [operand w] ++ ws.map operand := rfl
+    rw [this]
+    exact readAsIntended_append (readAsIntended_operand _ rfl (h w (by simp)))
+      (ih (fun x hx => h x (by simp [hx])))
+
+/-- A whole vector made of such blocks is read as intended. -/
+theorem interpret_of_readAsIntended {argv : List Arg} (h : ReadAsIntended argv) :
+    interpret takesValue (argv.map (·.text)) = argv.map (·.role) := by
+  have := h []
+  simpa [interpret, interpretAux] using this
+
+/-! ## The same for a parser that stops at its n-th operand -/
+
+/-- A block of options (and their values) under `interpretUntil`: read as built, no operand consumed. -/
+def OptionsReadAsIntended (block : List Arg) : Prop :=
+  ∀ (n : Nat) (rest : List Str),
+    interpretUntil takesValue (n + 1) false (block.map (·.text) ++ rest) =
+      block.map (·.role) ++ interpretUntil takesValue (n + 1) false rest
+
+theorem optionsRead_nil : OptionsReadAsIntended [] := by
+  intro n rest; simp
+
+theorem optionsRead_append {a b : List Arg} (ha : OptionsReadAsIntended a) (hb : OptionsReadAsIntended b) :
+    OptionsReadAsIntended (a ++ b) := by
+  intro n rest
+  simp only [List.map_append, List.append_assoc]
+  rw [ha, hb]
+
+theorem optionsRead_flatMap {α : Type} (l : List α) (f : α → List Arg) (h : ∀ x ∈ l, OptionsReadAsIntended (f x)) :
+    OptionsReadAsIntended (l.flatMap f) := by
+  induction l with
+  | nil => exact optionsRead_nil
+  | cons x xs ih =>
+    rw [List.flatMap_cons]
+    exact optionsRead_append (h x (by simp)) (ih (fun y hy => h y (by simp [hy])))
+
+theorem optionsRead_switch (name : Str) (h : takesValue ('-' :: '-' :: name) = false) :
+    OptionsReadAsIntended [optS ('-' :: '-' :: name)] := by
+  intro n rest
+  simp [optS, interpretUntil, startsWithDash_dash, h]
+
+theorem optionsRead_valued (name : Str) (v : Arg) (hv : v.role = .value)
+    (h : takesValue ('-' :: '-' :: name) = true) :
+    OptionsReadAsIntended [optS ('-' :: '-' :: name), v] := by
+  intro n rest
+  simp [optS, interpretUntil, startsWithDash_dash, h, hv]
+
+theorem daemonConnectionFlags_optionsRead {parameters : List (Str × Str)} {flags : List Arg}
+    (h : daemonConnectionFlags parameters = .ok flags) : OptionsReadAsIntended flags := by
+  unfold daemonConnectionFlags at h
+  cases hf : parameters.findSome? checkParameter with
+  | some e => simp [hf] at h
+  | none =>
+    simp only [hf] at h
+    injection h with h
+    subst h
+    apply optionsRead_flatMap
+    intro name hname
+    cases hl : lookup name parameters with
+    | none => exact optionsRead_nil
+    | some v =>
+      simp only
+      have hcases : name = "config".toList ∨ name = "host".toList ∨ name = "context".toList ∨ name = "tls".toList ∨
+          name = "tlscacert".toList ∨ name = "tlscert".toList ∨ name = "tlskey".toList ∨ name = "tlsverify".toList := by
+        simpa [flagOrder] using hname
+      rcases hcases with rfl | rfl | rfl | rfl | rfl | rfl | rfl | rfl
+      · rw [if_neg (by decide)]; exact optionsRead_valued _ _ rfl (by decide)
+      · rw [if_neg (by decide)]; exact optionsRead_valued _ _ rfl (by decide)
+      · rw [if_neg (by decide)]; exact optionsRead_valued _ _ rfl (by decide)
+      · rw [if_pos (by decide)]; exact optionsRead_switch _ (by decide)
+      · rw [if_neg (by decide)]; exact optionsRead_valued _ _ rfl (by decide)
+      · rw [if_neg (by decide)]; exact optionsRead_valued _ _ rfl (by decide)
+      · rw [if_neg (by decide)]; exact optionsRead_valued _ _ rfl (by decide)
+      · rw [if_pos (by decide)]; exact optionsRead_switch _ (by decide)
+
+/-- Once the last operand has been seen, everything is an operand. -/
+theorem interpretUntil_zero (b : Bool) (ws : List Str) :
+    interpretUntil takesValue 0 b ws = ws.map fun _ => Role.operand := by
+  induction ws generalizing b with
+  | nil => simp [interpretUntil]
+  | cons w ws ih => simp [interpretUntil, ih]
+
+/-- An operand that does not start with '-' uses up one of the parser's operand slots. -/
+theorem interpretUntil_operand (n : Nat) (a : Str) (rest : List Str) (h : startsWithDash a = false) :
+    interpretUntil takesValue (n + 1) false (a :: rest) = .operand :: interpretUntil takesValue n false rest := by
+  simp [interpretUntil, h]
+
 end Mutagen.Proofs.Argv
